@@ -172,10 +172,12 @@ class SkBaseTransformLearner(SkBaseTransform):
                 raise ValueError(f"Parameter '{k}' must start with 'model__'.")
         d = len("model__")
         pars = {k[d:]: v for k, v in values.items()}
-        self.model.set_params(**pars)
-        # binds the method to the current model
+        # binds the method to the current model before the nested
+        # parameters are set: the model may have been replaced above
+        # and the nested parameters may be refused
         self.method = method
         self._set_method(method)
+        self.model.set_params(**pars)
         return self
 
     #################
